@@ -22,6 +22,12 @@ type OblResult struct {
 }
 
 func main() {
+	// the default go (1.23) cannot load /repo (go 1.25 module); use go1.26.8 offline
+	os.Setenv("PATH", "/opt/veriftools/go1.26.8/bin:"+os.Getenv("PATH"))
+	os.Setenv("GOFLAGS", "-mod=mod")
+	os.Setenv("GOPROXY", "off")
+	os.Setenv("GOSUMDB", "off")
+	os.Setenv("GOTOOLCHAIN", "local")
 	if len(os.Args) < 2 {
 		fmt.Fprintln(os.Stderr, "usage: govc check|lock|dump|selftest|replay ...")
 		os.Exit(2)
